@@ -490,7 +490,6 @@ def run_bane(filename, cfg, sched, ch, faults=None, fill="payload", ncpu=16, cor
     for name, val in patches.items():
         saved[name] = BANE.__dict__.get(name, _MISSING)
         setattr(BANE, name, val)
-    saved_glob = (BANE.__dict__.get("barrier"), BANE.__dict__.get("memory_id"))
     # also intercept late/other imports of the real module objects
     real_attrs = {}
     for name in ("get_context", "Pool", "Barrier", "cpu_count"):
@@ -523,7 +522,11 @@ def run_bane(filename, cfg, sched, ch, faults=None, fill="payload", ncpu=16, cor
                 delattr(BANE, name)
             else:
                 setattr(BANE, name, val)
-        BANE.barrier, BANE.memory_id = saved_glob
+        # Module state written by the parent (e.g. BANE.memory_id) is deliberately NOT reset: the runs of one case are
+        # consecutive calls in one process (cases themselves run in a forked child each), so state that leaks from one
+        # call into the next is seen.  What the pool initializer assigned (BANE.barrier) is worker-process state and is
+        # put back to the parent's value.
+        sim.restore_worker_side_globals()
         for name, val in real_attrs.items():
             setattr(multiprocessing, name, val)
         real_shm_mod.SharedMemory = real_SM
